@@ -83,6 +83,11 @@ def specs_for(t, rnd):
             comp = {"kind": "hsl", "h": h, "s": s10, "l": l10, "an": an, "ad": 1000}
         if len(hist) < 60 and k % 7 != 3:
             hist.append((kind, fg, an, text, comp))
+        if k % 11 == 7 and comp["kind"] == "rgb" and 0 < an < 1000:
+            # text and background are the very same translucent value (same spelling): the background goes over white, the
+            # text over that composite
+            bg_in = text
+            bgv, ban = tuple(comp["v"]), an
         comp.update({"bgv": list(bgv), "ban": ban, "bad": 1000})
         large = bool(rnd.getrandbits(1))
         runs = [(rnd.choice((0, 1, 2)), bool(rnd.getrandbits(1)))] if k % 4 else []
